@@ -1,7 +1,7 @@
 (* Non-vacuity: concrete schedules of the par.Work and par.Cache models, and a concrete value
    for every hypothesis the C09/C10 theorems carry. *)
 From Coq Require Import List Arith Bool Lia.
-From GI Require Import Gen.ParConsts Par.ParWork Par.ParLib Par.ParWorkProofs Par.ParCache Par.ParCacheProofs.
+From GI Require Import Gen.ParConsts Par.ParWork Par.ParLib Par.ParWorkProofs Par.ParCache Par.ParCacheBase Par.ParCacheProofs.
 Import ListNotations.
 
 (* item graph: 0 -> 1,2   1 -> 2,3   2 -> 3   3 -> (nothing); initial Adds: 0, 0 (a duplicate) *)
@@ -94,7 +94,8 @@ Proof.
 Qed.
 
 (* ---- par.Cache *)
-Definition ex_fval (k : nat) : nat := 100 + k.
+Definition ex_fval (k : nat) : option nat := match k with 2 => None | _ => Some (100 + k) end.
+Definition ex_nodeps (k : nat) : list nat := [].
 Definition ex_progs : list (list call) := [[CDo 0; CGet 1]; [CGet 0; CDo 0]; [CDo 1]].
 
 (* thread 0 computes key 0 while thread 1's Get(0) returns nil in the middle of f; thread 1's
@@ -113,7 +114,7 @@ Definition ex_csched : list nat :=
 Example ex_cache_run :
   option_map (fun s => (map rets (thrs s), map tpc (thrs s), plain s,
                         fbegins (ents s 0), fbegins (ents s 1)))
-             (crun ex_fval ex_csched (cinit ex_progs)) =
+             (crun ex_fval ex_nodeps ex_csched (cinit ex_progs)) =
   Some ([[(CGet 1, Some 101); (CDo 0, Some 100)];
          [(CDo 0, Some 100); (CGet 0, None)];
          [(CDo 1, Some 101)]],
@@ -124,8 +125,60 @@ Proof. vm_compute. reflexivity. Qed.
 
 (* while f_0 is running under the mutex, thread 1's Lock is not a step, but its Get was *)
 Example ex_cache_lock_blocks :
-  option_map (fun s => (cenabled ex_fval s 0, cenabled ex_fval s 1, cenabled ex_fval s 2))
-             (crun ex_fval [0; 0; 0; 0; 0; 0; 1; 1; 1; 1] (cinit ex_progs)) = Some (true, false, true).
+  option_map (fun s => (cenabled ex_fval ex_nodeps s 0, cenabled ex_fval ex_nodeps s 1, cenabled ex_fval ex_nodeps s 2))
+             (crun ex_fval ex_nodeps [0; 0; 0; 0; 0; 0; 1; 1; 1; 1] (cinit ex_progs)) = Some (true, false, true).
 Proof. vm_compute. reflexivity. Qed.
 
-Example ex_psi : psi (cinit ex_progs) = 54. Proof. vm_compute. reflexivity. Qed.
+(* nested Do: f_0 calls Do(1) and Do(2), f_1 calls Do(2) (as goproxytest's zip cache calls the archive
+   cache); f_2 returns nil.  Levels 2 > 1 > 0 witness acyclicity. *)
+Definition ex_deps (k : nat) : list nat := match k with 0 => [1; 2] | 1 => [2] | _ => [] end.
+Definition ex_level (k : nat) : nat := match k with 0 => 2 | 1 => 1 | _ => 0 end.
+Example ex_level_ok : forall k d, In d (ex_deps k) -> ex_level d < ex_level k.
+Proof. intros [|[|k]] d; simpl; intuition; subst; simpl; lia. Qed.
+
+Definition ex_nprogs : list (list call) := [[CDo 0]; [CDo 2; CGet 0]].
+(* thread 0 alone up to the nested Do(2) inside f_1 inside f_0, where thread 1 has taken e.mu of 2 first *)
+Definition ex_nsched : list nat :=
+  [1; 1; 1; 1; 1; 1;                   (* t1: Do(2) up to "call f" *)
+   0; 0; 0; 0; 0; 0; 0;                (* t0: Do(0) ... f_0 running, starts nested Do(1) *)
+   0; 0; 0; 0; 0; 0; 0;                (* t0: Do(1) ... f_1 running, starts nested Do(2) *)
+   0; 0].                              (* t0: Do(2): Load hit, Load1 = 0, now at Lock(2): blocked *)
+Example ex_nested_blocked :
+  option_map (fun s => (map tpc (thrs s), map stack (thrs s), cenabled ex_fval ex_deps s 0, cenabled ex_fval ex_deps s 1))
+             (crun ex_fval ex_deps ex_nsched (cinit ex_nprogs)) =
+  Some ([DLock 2; DInF 2 0], [[(1, 1); (0, 1)]; []], false, true).
+Proof. vm_compute. reflexivity. Qed.
+
+(* ... and on to the end: every f ran once, the nested results were returned into the callers, Get(0)
+   finds the value, f_2's nil is a result like any other *)
+Definition ex_nsched_rest : list nat :=
+  [1; 1; 1; 1; 1;                       (* t1: f_2 returns nil, write, store, unlock, read: Do(2) = nil *)
+   0; 0; 0; 0;                          (* t0: Lock(2), Load2 = done, Unlock, read: back in f_1 *)
+   0; 0; 0; 0; 0;                       (* t0: f_1 returns, write, store, unlock, read: back in f_0 (j = 1) *)
+   0; 0; 0; 0;                          (* t0: nested Do(2) from f_0: Load hit, Load1 done, read *)
+   0; 0; 0; 0; 0;                       (* t0: f_0 returns, write, store, unlock, read: Do(0) returns *)
+   1; 1; 1].                            (* t1: Get(0) = 100 *)
+Example ex_nested_run :
+  option_map (fun s => (map rets (thrs s), map nrets (thrs s), map (fun k => fbegins (ents s k)) [0; 1; 2], all_idle s))
+             (crun ex_fval ex_deps (ex_nsched ++ ex_nsched_rest) (cinit ex_nprogs)) =
+  Some ([[(CDo 0, Some 100)]; [(CGet 0, Some 100); (CDo 2, None)]],
+        [[(2, None); (1, Some 101); (2, None)]; []], [1; 1; 1], true).
+Proof. vm_compute. reflexivity. Qed.
+
+Example ex_psi : psi ex_deps (kcL ex_deps ex_level) (cinit ex_nprogs) = 71.
+Proof. vm_compute. reflexivity. Qed.
+
+(* without acyclicity Do can deadlock: f_0 calling Do(0) blocks on its own entry mutex.  This refutes
+   "no deadlock for every dependency relation" in the model (and sync.Mutex is not re-entrant) *)
+Definition ex_selfdeps (k : nat) : list nat := [k].
+Theorem self_dependency_deadlocks_refuted :
+  exists (deps : nat -> list nat) (progs : list (list call)) (s : cstate),
+    creachable ex_fval deps progs s /\ all_idle s = false /\ forall t, cstep ex_fval deps s t = None.
+Proof.
+  exists ex_selfdeps, [[CDo 0]].
+  destruct (crun ex_fval ex_selfdeps [0; 0; 0; 0; 0; 0; 0; 0; 0] (cinit [[CDo 0]])) as [s|] eqn:E; [|discriminate].
+  exists s. split; [|split].
+  - eapply crun_reachable; [apply creach_init|exact E].
+  - vm_compute in E. inversion E; subst. reflexivity.
+  - vm_compute in E. inversion E; subst. intros [|[|t]]; reflexivity.
+Qed.
